@@ -580,6 +580,57 @@ def _oracle(f, args):
         if n < 0: raise Err()
         if n > 1 << 20: raise NoOpinion()
         return A([args[1] if len(args) > 1 else NIL] * n), same
+    # ------------------------------------------------------------ printf-style formatting (tested only, subset shared with python %)
+    if f in ('string/format', 'buffer/format'):
+        off = 1 if f == 'buffer/format' else 0
+        if f == 'buffer/format':
+            buf = buf0(args)
+        if len(args) <= off or args[off][0] != 's':
+            raise NoOpinion()
+        fmt = args[off][1]
+        vals = []
+        for a in args[off + 1:]:
+            if a[0] == 'i': vals.append(a[1])
+            elif a[0] == 'd': vals.append(a[1])
+            elif a[0] in BYTES: vals.append(a[1])
+            else: raise NoOpinion()
+        import re as _re
+        full = _re.findall(rb'%([-0 +#]*)\d*(?:\.\d+)?(.)', fmt)
+        if any(d in b'xXoc' and (b' ' in fl or b'+' in fl) for fl, d in full):
+            raise NoOpinion()        # C ignores sign flags for unsigned conversions, python does not
+        dirs = [d for fl, d in full]
+        if any(d not in b'dixXosfeEgGc%' for d in dirs):
+            raise NoOpinion()
+        need = [d for d in dirs if d != b'%']
+        if len(need) > len(vals):
+            if f == 'buffer/format':
+                raise Err(None)      # partial output may already be in the buffer
+            raise Err()
+        if len(need) < len(vals):
+            raise NoOpinion()
+        for d, v in zip(need, vals):
+            if d in b'dixXoc' and not (isinstance(v, int) and INT32_MIN <= v <= INT32_MAX):
+                if isinstance(v, bytes):
+                    raise Err(None)
+                raise NoOpinion()
+            if d in b'feEgG' and isinstance(v, bytes):
+                raise Err(None)
+            if d == b's' and not isinstance(v, bytes):
+                raise NoOpinion()
+            if d == b'c' and not 0 <= v < 256:
+                raise NoOpinion()
+            if d in b'xXo' and v < 0:
+                raise NoOpinion()
+            if isinstance(v, bytes) and b'\0' in v:
+                raise NoOpinion()     # %s goes through a C string
+        try:
+            out = fmt % tuple(vals)
+        except (TypeError, ValueError, OverflowError):
+            raise NoOpinion()
+        if f == 'buffer/format':
+            r = bytes(buf) + out
+            return B(r), with0(args, B(r))
+        return S(out), same
     # ------------------------------------------------------------ boot.janet sequence functions
     if f in ('take', 'drop'):
         if len(args) != 2 or args[0][0] != 'i': raise NoOpinion()
